@@ -6,13 +6,14 @@ import vlib
 
 class Spec(runner.Spec):
     prop = "C18"
-    streams = [proto_streams.SchemaAgree()]
+    streams = [proto_streams.SchemaAgree(), proto_streams.ProtoGen()]
     assumptions = [
         "dev profile; types: the zoo harness/zoo/*.asn1 compiled by the real converter to Rust and, by the same Converter object, to .proto files (Converter::to_protobuf in harness/build.rs)",
         "independent decoder: protoc --decode (libprotoc 3.21.12 in the sandbox) on the unmodified generated files copied to .work/proto_c18/orig; when protoc rejects a file, the definitions it points at are removed from a second copy (.work/proto_c18/usable) so that the remaining messages of that module can still be decoded — the rejection itself is reported by the `proto schema` request of the offending definition",
         "if protoc is not installed the check says so (coverage.notes / histogram tag decoder:builtin) and uses the built-in proto3 wire decoder of tools/proto_streams.py alone; with protoc present both decoders run and must agree",
         "field names are matched to components by declaration order (schema) = component order (descriptor); for SET types the descriptor is in canonical tag order, which is the known finding proto.set_field_order",
         "the schema model cannot see the declaration order of a SET or the signedness of a 64-bit Rust integer in the descriptor: `proto wire` is not asked for SET types, and u64/i64 is decided by the converter's rule (negative lower bound)",
+        "stream `proto-gen` (exploration level, protoc as oracle): the real generator writes the .proto files of generated module texts (module names with hyphens/digits/Module suffix, object identifiers, names that are proto3 keywords, two modules with imports, random structures from the generator of C09) and protoc must accept every file; rejections inside the listed finding classes are KNOWN-FINDINGs",
         "translation validation, not proof, for the text of the .proto files: the Lean theorem speaks about the schema *model* (Proto/Schema.lean), which is compared with the real files by the `proto wire` requests",
     ]
     def extra_obligations(self, tier):
